@@ -256,6 +256,20 @@ func genCase(t *rapid.T) *Case {
 		}
 		return c
 	}
+	if gen.Chance(t, 1, 25, "wide") {
+		// a node that first grows beyond 50 children (edge search by bisection from there on) and only then gets a parameter
+		// and a catch-all child, and routes below those two
+		for _, ch := range "0123456789ABCDEFGHIJKLMNOPQRSTUVWXYZabcdefghijklmnopq"[:gen.IntR(t, 51, 53, "wn")] {
+			c.Routes = append(c.Routes, rt.RouteSpec{Method: "GET", Pattern: "/w/" + string(ch)})
+		}
+		for _, p := range []string{"/w/{pw}", "/w/*{cw}", "/w/{pw}/x", "/w/*{cw}/y"} {
+			c.Routes = append(c.Routes, rt.RouteSpec{Method: "GET", Pattern: p})
+		}
+		for _, p := range []string{"/w/zz", "/w/docs/readme", "/w/zz/x", "/w/a/b/y", "/w/0", "/w/00", "/w/q/x"} {
+			c.Reqs = append(c.Reqs, rt.Req{Method: "GET", Path: p})
+		}
+		return c
+	}
 	n := gen.IntR(t, 1, 10, "nroutes")
 	hostW := gen.Pick(t, []int{2, 2, 1000}, "hostweight")
 	var pool []string
